@@ -465,7 +465,7 @@ func (f *frame) execInstr(ins ssa.Instruction) {
 		h := u.heap(f.cur, hn, hs)
 		zarr := fmt.Sprintf("((as const (Array Int %s)) %s)", u.tc.smt(es), u.tc.zero(es).S)
 		u.setHeap(f.cur, hn, hs, sto(h, r, Term{zarr, nil}))
-		u.bumpAlloc(f.cur, ln)
+		u.bumpAlloc(f.cur, cp)
 		f.vals[ins] = u.define(f.key+"_"+ins.Name(), mkSlice(u, r, Term{"0", sInt}, ln, cp, ins.Type()))
 	case *ssa.Convert:
 		f.vals[ins] = f.convert(ins)
